@@ -13,6 +13,14 @@ Streams
                     oracle: the environ-level URLs equal Request.url / base_url / root_url / host_url
   dispatcher        DispatcherMiddleware over mount tables x paths vs Model.Url.dispatch;
                     oracle: SCRIPT_NAME + PATH_INFO preserved, longest '/'-boundary mount chosen
+  builder-forms     EnvironBuilder with every form of its arguments (path with / without query, query_string
+                    absent / str / dict / MultiDict / list of pairs, base_url None / text, from_environ) ->
+                    environ keys (incl. REQUEST_URI, RAW_URI, SERVER_NAME, SERVER_PORT), builder properties
+                    (query_string, args, base_url), Request.path / root_path / host / url / base_url / root_url /
+                    host_url / full_path / args  vs  Model.UrlBuilder; oracle: args / query recovered
+  proxyfix          ProxyFix over trust counts x forwarded headers x environs vs Model.UrlProxyFix;
+                    oracle: PATH_INFO unchanged, Request.path as without the middleware
+  gethost-kernel    sansio.utils.get_host(scheme, host) vs Model.UrlEnviron.getHost
 """
 from __future__ import annotations
 
@@ -20,7 +28,7 @@ import random
 import re
 from urllib.parse import parse_qsl, quote, unquote, unquote_to_bytes, urlsplit, urlunsplit
 
-from vlib.core import Check, Stream, hs, hx, line, opt, unhs, unhx
+from vlib.core import Check, Stream, hs, hx, line, opt, out_list, unhs, unhx
 
 HEX = "0123456789ABCDEFabcdef"
 TEXT = ["a", "b", "Z", "0", "-", ".", "_", "~", "é", "ü", "ß", "日本", "😀", "́", "\x7f", "\x80", "\xa0", "ÿ", "Ā", " ", "�", "\U0010ffff"]
@@ -502,6 +510,97 @@ def rand_clean(rng, alphabet, lo=0, hi=5):
     return "".join(rng.choice(alphabet) for _ in range(rng.randrange(lo, hi + 1)))
 
 
+
+ENV_KEYS = ("PATH_INFO", "SCRIPT_NAME", "QUERY_STRING", "HTTP_HOST", "wsgi.url_scheme", "REQUEST_URI", "RAW_URI", "SERVER_NAME", "SERVER_PORT")
+
+
+def out_pairs(items):
+    items = list(items)
+    return ";".join(hs(k) + "=" + hs(v) for k, v in items) if items else "[]"
+
+
+def in_pairs(s):
+    return [] if s == "[]" else [tuple(unhs(x) for x in kv.split("=")) for kv in s.split(";")]
+
+
+def grouped(items):
+    """the order in which a dict of lists / MultiDict yields (key, value): grouped by first occurrence of the key"""
+    order, by = [], {}
+    for k, v in items:
+        if k not in by:
+            by[k] = []
+            order.append(k)
+        by[k].append(v)
+    return [(k, v) for k in order for v in by[k]]
+
+
+def builder_report(b):
+    """what the streams compare for one EnvironBuilder: environ keys | builder properties | request attributes"""
+    from werkzeug.wrappers import Request
+
+    env = b.get_environ()
+    req = Request(env)
+    try:
+        a = out_pairs(b.args.items(multi=True))
+    except AttributeError:
+        a = "EXC:AttributeError"
+    rep = (
+        ",".join(hs(env[k]) for k in ENV_KEYS)
+        + "|" + ",".join([hs(b.query_string), a, hs(b.base_url)])
+        + "|" + ",".join([hs(req.path), hs(req.root_path), hs(req.host), hs(req.url), hs(req.base_url), hs(req.root_url), hs(req.host_url), hs(req.full_path), out_pairs(req.args.items(multi=True))])
+    )
+    if req.script_root != req.root_path or req.url_root != req.root_url:
+        rep += "|ALIAS-MISMATCH"  # script_root / url_root are documented aliases of root_path / root_url
+    return rep
+
+
+def split_report(rep):
+    e, b, r = rep.split("|")[:3]
+    env = dict(zip(ENV_KEYS, (unhs(x) for x in e.split(","))))
+    bq, ba, bb = b.split(",")
+    rf = r.split(",")
+    req = dict(zip(("path", "root_path", "host", "url", "base_url", "root_url", "host_url", "full_path"), (unhs(x) for x in rf[:8])))
+    req["args"] = in_pairs(rf[8])
+    return env, {"query_string": unhs(bq), "args": ba, "base_url": unhs(bb)}, req
+
+
+def opaque_params(path, base):
+    """the model's opaque parameters for one builder case, evaluated with the real library: raw host of the base
+    URL and its IDNA form, raw host of HTTP_HOST after get_host and its decoded form, ipaddress / NFKC verdicts
+    for a netloc inside the path argument"""
+    from werkzeug.sansio.utils import get_host
+    from werkzeug.urls import _decode_idna, iri_to_uri
+
+    base = "http://localhost/" if base is None else base
+    ra, ca, ru, cu = "", None, "", None
+    try:
+        sp = urlsplit(base)
+        ra = sp._hostinfo[0] or ""
+        ca = sp.hostname.encode("idna").decode("ascii") if sp.hostname else None
+    except (ValueError, UnicodeError):
+        pass
+    try:
+        b2 = urlsplit(iri_to_uri(base))
+        host = get_host(b2.scheme, b2.netloc)
+        s2 = urlsplit(f"{b2.scheme}://{host}")
+        ru = s2._hostinfo[0] or ""
+        cu = _decode_idna(s2.hostname) if s2.hostname else None
+    except (ValueError, UnicodeError):
+        pass
+    bo, no, _, _ = opaque_for(path)
+    return [hs(ra), opt(hs, ca), hs(ru), opt(hs, cu), "1" if bo else "0", "1" if no else "0"]
+
+
+def builder_line(path, base, q, fromenv=False):
+    """driver line of the `builder` op; q = None | str | list of pairs (in the order the mapping yields them)"""
+    qa = "~" if q is None else "s:" + hs(q) if isinstance(q, str) else "m:" + out_pairs(q)
+    return line("builder", hs(path), opt(hs, base), qa, *opaque_params(path, base), "1" if fromenv else "0")
+
+
+def strip_tcl(s):
+    return s.replace("\t", "").replace("\r", "").replace("\n", "")
+
+
 class EnvironRoundtrip(Stream):
     name = "environ-roundtrip"
     corpus = [
@@ -518,6 +617,14 @@ class EnvironRoundtrip(Stream):
         ]
     ] + [
         {"path": hs("/p"), "query": [], "base": b} for b in range(9, 19)
+    ] + [
+        # near the F15c family (self-test mutations of round 3): spaces are not TAB/CR/LF; a TAB in the path must
+        # not cost anything but the TAB itself
+        {"path": hs("/ "), "query": [], "base": 2},
+        {"path": hs("/a b/ c "), "query": [[hs(" "), hs(" ")]], "base": 0},
+        {"path": hs("/\t"), "query": [[hs(":"), hs("\r+")]], "base": 14},
+        {"path": hs("/a\tb"), "query": [[hs("k"), hs("v w")], [hs("k"), hs("é")]], "base": 1},
+        {"path": hs("/x\r\ny"), "query": [[hs("\t"), hs("\n")]], "base": 4},
     ]
 
     def cases(self, rng, tier):
@@ -539,60 +646,108 @@ class EnvironRoundtrip(Stream):
         scheme, host, port, root = BASES[case["base"]]
         return scheme, host, port, root, f"{scheme}://{host}{port}{root}/"
 
+    F15C_TAG = "[TAB/CR/LF removed by urlsplit; every other field is that of the stripped path]"
+
+    @staticmethod
+    def in_domain(path):
+        """the property's domain for the path argument: a URL path starting with exactly one '/' (also after the
+        TAB / CR / LF removal of F15c), no '%', '?', '#'"""
+        st = strip_tcl(path)
+        return path.startswith("/") and not path.startswith("//") and not st.startswith("//") and not any(c in path for c in "%?#")
+
+    def items(self, case):
+        """the pairs in the order a MultiDict yields them"""
+        return grouped([(unhs(k), unhs(v)) for k, v in case["query"]])
+
     def real(self, case):
         from werkzeug.datastructures import MultiDict
         from werkzeug.test import EnvironBuilder
-        from werkzeug.wrappers import Request
 
         path = unhs(case["path"])
         items = [(unhs(k), unhs(v)) for k, v in case["query"]]
         b = EnvironBuilder(path=path, query_string=MultiDict(items), base_url=self.base_url(case)[4])
         try:
-            req = Request(b.get_environ())
-            return "|".join([hs(req.path), ",".join(hs(k) + "=" + hs(v) for k, v in req.args.items(multi=True)) or "[]", hs(req.host), hs(req.url), hs(req.root_path)])
+            return builder_report(b)
         finally:
             b.close()
 
-    def oracle(self, case, real_out):
-        from werkzeug.datastructures import MultiDict
+    def model_line(self, case):
+        return builder_line(unhs(case["path"]), self.base_url(case)[4], self.items(case))
 
-        if real_out.startswith("EXC"):
-            return f"environ round trip raised {real_out}"
-        path = unhs(case["path"])
-        items = list(MultiDict([(unhs(k), unhs(v)) for k, v in case["query"]]).items(multi=True))
+    def other_clauses(self, case, eff, req):
+        """every clause except Request.path, stated for the path `eff`"""
+        items = self.items(case)
         scheme, host, port, root, _ = self.base_url(case)
-        rpath, rargs, rhost, rurl, rroot = real_out.split("|")
-        if unhs(rpath) != path:
-            return f"Request.path {unhs(rpath)!r} != {path!r}"
-        got = [] if rargs == "[]" else [tuple(unhs(x) for x in kv.split("=")) for kv in rargs.split(",")]
-        if got != items:
-            return f"Request.args {got!r} != {items!r}"
+        if req["args"] != items:
+            return f"Request.args {req['args']!r} != {items!r}"
         default = {"http": ":80", "https": ":443", "ws": ":80", "wss": ":443"}[scheme]
         ascii_host = host if host.startswith("[") else host.encode("idna").decode("ascii")
         want_host = ascii_host + ("" if port == default else port)
-        if unhs(rhost) != want_host:
-            return f"Request.host {unhs(rhost)!r} != {want_host!r}"
-        if unhs(rroot) != root:
-            return f"Request.root_path {unhs(rroot)!r} != {root!r}"
-        sp = urlsplit(unhs(rurl))
+        if req["host"] != want_host:
+            return f"Request.host {req['host']!r} != {want_host!r}"
+        if req["root_path"] != root:
+            return f"Request.root_path {req['root_path']!r} != {root!r}"
+        try:
+            sp = urlsplit(req["url"])
+            uport = sp.port
+        except ValueError as e:
+            return f"Request.url {req['url']!r} does not parse: {e}"
         if sp.scheme != scheme:
             return f"Request.url scheme {sp.scheme!r}"
         uhost = sp.hostname or ""
-        if (uhost if ":" in uhost else uhost.encode("idna").decode("ascii")) != ascii_host.strip("[]").lower() or (sp.port or None) != (None if port in ("", default) else int(port[1:])):
+        if (uhost if ":" in uhost else uhost.encode("idna").decode("ascii")) != ascii_host.strip("[]").lower() or (uport or None) != (None if port in ("", default) else int(port[1:])):
             return f"Request.url authority {sp.netloc!r} does not denote {want_host!r}"
-        if unquote(sp.path, errors="strict") != root + path:
-            return f"Request.url path {sp.path!r} does not denote {root + path!r}"
-        if parse_qsl(sp.query, keep_blank_values=True, errors="strict") != items:
-            return f"Request.url query {sp.query!r} does not denote {items!r}"
+        if "xn--" not in host.lower() and uhost != host.strip("[]").lower():
+            # the base URL was given in IRI form: the reconstructed URL names the host exactly as given
+            return f"Request.url host {uhost!r} is not the host given in base_url {host!r}"
+        try:
+            if unquote(sp.path, errors="strict") != root + eff:
+                return f"Request.url path {sp.path!r} does not denote {root + eff!r}"
+            if parse_qsl(sp.query, keep_blank_values=True, errors="strict") != items:
+                return f"Request.url query {sp.query!r} does not denote {items!r}"
+        except UnicodeDecodeError:
+            return f"Request.url {req['url']!r} has components that are not UTF-8"
+        return None
+
+    def oracle(self, case, real_out):
+        if real_out.startswith("EXC"):
+            return f"environ round trip raised {real_out}"
+        path = unhs(case["path"])
+        if not self.in_domain(path):
+            return None  # only reachable through shrinking: the claim is for URL paths starting with one '/'
+        _env, _bp, req = split_report(real_out)
+        stripped = strip_tcl(path)
+        # the specific shape of known finding F15c: the path comes back with exactly TAB / CR / LF removed
+        f15c = stripped != path and req["path"] == stripped
+        w = self.other_clauses(case, stripped if f15c else path, req)
+        if w:
+            return w  # a second, different failure on the same case is reported as such
+        if req["path"] != path:
+            return f"Request.path {req['path']!r} != {path!r}" + (" " + self.F15C_TAG if f15c else "")
         return None
 
     def finding_key(self, case, what):
-        path = unhs(case["path"])
-        if what.startswith("Request.path ") and any(c in path for c in "\t\r\n"):
-            got = unhs(self.real(case).split("|")[0])
-            if got == path.replace("\t", "").replace("\r", "").replace("\n", ""):
-                return "F15c"
-        return None
+        """F15c only for its specific shape: TAB/CR/LF in the path argument, Request.path is the argument with
+        exactly those characters removed, every other clause holds for the stripped path (oracle), and the Lean
+        model - which carries F15c as `environ_path_full_false` - predicts exactly the observed outcome"""
+        if not what.endswith(self.F15C_TAG) or strip_tcl(unhs(case["path"])) == unhs(case["path"]):
+            return None
+        try:
+            real = self.real(case)
+        except Exception:  # noqa: BLE001
+            return None
+        if split_report(real)[2]["path"] != strip_tcl(unhs(case["path"])):
+            return None
+        from vlib.core import Driver
+
+        d = Driver("C15")
+        if d.ok:
+            try:
+                if d.batch([self.model_line(case)])[0] != real:
+                    return None
+            except Exception:  # noqa: BLE001
+                return None
+        return "F15c"
 
     def bucket(self, case, real_out):
         return "exc" if real_out.startswith("EXC") else f"base{case['base']}"
@@ -600,7 +755,8 @@ class EnvironRoundtrip(Stream):
     def mutate(self, case, rng):
         p = unhs(case["path"])
         for i in range(1, len(p)):
-            yield {"path": hs(p[:i] + p[i + 1 :]), "query": case["query"], "base": case["base"]}
+            if self.in_domain(p[:i] + p[i + 1 :]):
+                yield {"path": hs(p[:i] + p[i + 1 :]), "query": case["query"], "base": case["base"]}
         for i in range(len(case["query"])):
             yield {"path": case["path"], "query": case["query"][:i] + case["query"][i + 1 :], "base": case["base"]}
         yield {"path": case["path"], "query": [], "base": 0}
@@ -811,17 +967,359 @@ class Dispatcher(Stream):
             yield {"path": hs(p[:i] + p[i + 1 :]), "script": case["script"], "mounts": ms}
 
 
+# ---------------------------------------------------------------------------
+
+
+PATHS_Q = ["/a?b=c", "/é?q=ü&x=1", "/?", "/p?a=1&a=2", "/x?%41=%42", "/a?b#c", "/a b?c d=e f", "?x=y", "/a?b?c"]
+BAD_BASES = ["http://localhost/?q=1", "http://localhost/#f", "http://h:x/", "http://[::1/", "http://localhost:99999/"]
+QITEMS = ["a", "b", "é", "k", "", "a b", "&", "=", "+", "%", "%41", "#", "?", "/", "日本", "😀", "x;y", "\t", "\x00", "ü=ö"]
+
+
+class BuilderForms(Stream):
+    """EnvironBuilder with every form of its path / base_url / query_string arguments (and from_environ)"""
+
+    name = "builder-forms"
+    corpus = [
+        {"path": hs(p), "base": b, "kind": k, "q": q, "fromenv": f}
+        for p, b, k, q, f in [
+            ("/", None, "none", None, False),
+            ("/a?b=c", None, "none", None, False),
+            ("/a?b=c", None, "str", hs("x=y"), False),
+            ("/a?b=c", 0, "dict", [[hs("x"), hs("y")]], False),
+            ("/a", 1, "str", hs("q=é&x=%41"), False),
+            ("/a", 2, "dict", [[hs("k"), hs("v w")], [hs("é"), hs("&=+%")]], False),
+            ("/a", 3, "multidict", [[hs("a"), hs("1")], [hs("b"), hs("2")], [hs("a"), hs("3")]], False),
+            ("/a", 4, "list", [[hs("a"), hs("1")], [hs("b"), hs("2")], [hs("a"), hs("3")]], False),
+            ("/a", 5, "dictlist", [[hs("a"), hs("1")], [hs("b"), hs("2")], [hs("a"), hs("3")]], False),
+            ("/é/日本", 7, "multidict", [[hs("😀"), hs("\U0010ffff")]], True),
+            ("/p", 9, "str", hs("a=b"), True),
+            ("/p", 4, "none", None, True),
+            ("/a%3Fb", 0, "none", None, True),  # from_environ sees the decoded '?': refused
+            ("/%2541", 0, "none", None, True),  # from_environ sees '%41' and reads it as an escape
+            ("/a#b", 0, "none", None, False),
+            ("//x/y", 0, "none", None, False),
+            ("/p", "bad0", "none", None, False),
+            ("/p", "bad1", "none", None, False),
+            ("/p", "bad2", "none", None, False),
+            ("/p", "bad3", "none", None, False),
+            ("/p", "bad4", "none", None, False),
+            ("", None, "none", None, False),
+            ("rel", None, "none", None, False),
+        ]
+    ]
+
+    def cases(self, rng, tier):
+        n, limit = 0, (1500 if tier == "quick" else 25000)
+        while n < limit:
+            n += 1
+            r = rng.random()
+            if r < 0.2:
+                path = rng.choice(PATHS_Q)
+            elif r < 0.3:
+                path = "/" + rand_clean(rng, CLEAN + ["%41", "%2F", "%C3%A9", "%FF", "%", "#", "?"], 0, 4)
+            else:
+                path = "/" + "/".join(rand_clean(rng, CLEAN, 0, 3) for _ in range(rng.randrange(1, 3)))
+            kind = rng.choice(["none", "none", "str", "dict", "multidict", "list", "dictlist"])
+            if kind == "none":
+                q = None
+            elif kind == "str":
+                q = hs(rng.choice(EnvironKernel.QS) if rng.random() < 0.6 else rand_text(rng, QUERY_EXTRA, malformed=0.05))
+            else:
+                q = [[hs(rng.choice(QITEMS)), hs(rng.choice(QITEMS))] for _ in range(rng.randrange(0, 4))]
+                if kind == "dict":  # a plain dict has distinct keys
+                    seen, qq = set(), []
+                    for k, v in q:
+                        if k not in seen:
+                            seen.add(k)
+                            qq.append([k, v])
+                    q = qq
+            rb = rng.random()
+            base = None if rb < 0.15 else f"bad{rng.randrange(len(BAD_BASES))}" if rb < 0.2 else rng.randrange(len(BASES))
+            yield {"path": hs(path), "base": base, "kind": kind, "q": q, "fromenv": rng.random() < 0.3}
+
+    @staticmethod
+    def base_text(case):
+        b = case["base"]
+        if b is None:
+            return None
+        if isinstance(b, str):
+            return BAD_BASES[int(b[3:])]
+        scheme, host, port, root = BASES[b]
+        return f"{scheme}://{host}{port}{root}/"
+
+    @staticmethod
+    def pairs(case):
+        return [(unhs(k), unhs(v)) for k, v in case["q"]]
+
+    def query_obj(self, case):
+        from werkzeug.datastructures import MultiDict
+
+        k = case["kind"]
+        if k == "none":
+            return None
+        if k == "str":
+            return unhs(case["q"])
+        ps = self.pairs(case)
+        if k == "dict":
+            return dict(ps)
+        if k == "multidict":
+            return MultiDict(ps)
+        if k == "dictlist":
+            d = {}
+            for a, b in ps:
+                d.setdefault(a, []).append(b)
+            return d
+        return ps  # an iterable of pairs: EnvironBuilder wraps it in a MultiDict
+
+    def model_query(self, case):
+        k = case["kind"]
+        if k == "none":
+            return None
+        if k == "str":
+            return unhs(case["q"])
+        return grouped(self.pairs(case))
+
+    def real(self, case):
+        from werkzeug.test import EnvironBuilder
+
+        b = EnvironBuilder(path=unhs(case["path"]), base_url=self.base_text(case), query_string=self.query_obj(case))
+        try:
+            if case["fromenv"]:
+                b2 = EnvironBuilder.from_environ(b.get_environ())
+                try:
+                    return builder_report(b2)
+                finally:
+                    b2.close()
+            return builder_report(b)
+        finally:
+            b.close()
+
+    def model_line(self, case):
+        return builder_line(unhs(case["path"]), self.base_text(case), self.model_query(case), case["fromenv"])
+
+    def oracle(self, case, real_out):
+        """the query given to the builder is recovered by the request (property text); everything else in this
+        stream is correspondence with the model"""
+        if real_out.startswith("EXC"):
+            return None
+        if real_out.endswith("ALIAS-MISMATCH"):
+            return "Request.script_root / url_root differ from root_path / root_url"
+        path = unhs(case["path"])
+        if "?" in path or "#" in path:
+            return None
+        _env, _bp, req = split_report(real_out)
+        k = case["kind"]
+        if k == "none":
+            want = []
+        elif k == "str":
+            return None  # a str is a query string, not a mapping: compared with the model
+        else:
+            want = grouped(self.pairs(case))
+        if req["args"] != want:
+            return f"Request.args {req['args']!r} != {want!r} (query_string given as {k})"
+        return None
+
+    def bucket(self, case, real_out):
+        return (real_out if real_out.startswith("EXC") else "ok") + ":" + case["kind"] + (":fromenv" if case["fromenv"] else "")
+
+    def mutate(self, case, rng):
+        yield dict(case, fromenv=False)
+        yield dict(case, base=None)
+        if isinstance(case["q"], list):
+            for i in range(len(case["q"])):
+                yield dict(case, q=case["q"][:i] + case["q"][i + 1 :])
+
+
+PF_HOSTS = ["example.com", "example.com:8080", "example.com:80", "[::1]", "[::1]:5000", "10.0.0.1:443", "h", "h:", "a:b:c", "", "x]"]
+PF_VALUES = {
+    "for": ["1.2.3.4", "10.0.0.1", "2001:db8::1", "unknown"],
+    "proto": ["https", "http", "wss", "HTTPS"],
+    "host": ["proxy.example", "proxy.example:8443", "[2001:db8::1]", "[2001:db8::1]:8443", "é.example", "h:80"],
+    "port": ["443", "8443", "80", "0", "x"],
+    "prefix": ["/app", "/a/b", "/é", "", "/", "app"],
+}
+PF_NAMES = ["for", "proto", "host", "port", "prefix"]
+
+
+class ProxyFixStream(Stream):
+    """ProxyFix: the n-th value from the right of each trusted X-Forwarded-* header, host / port rewriting,
+    X-Forwarded-Prefix replacing SCRIPT_NAME, PATH_INFO untouched"""
+
+    name = "proxyfix"
+    corpus = [
+        {"cfg": cfg, "env": env, "hdr": hdr}
+        for cfg, env, hdr in [
+            ([1, 1, 1, 1, 1], ["127.0.0.1", "http", hs("internal:8000"), hs("internal"), "8000", hs("/old"), hs("/p/q")], [hs("1.2.3.4, 10.0.0.1"), hs("https"), hs("example.com"), hs("443"), hs("/app")]),
+            ([2, 1, 0, 0, 0], ["127.0.0.1", "http", hs("h"), hs("h"), "80", "-", hs("/")], [hs("a, b, c"), hs("https, http"), None, None, None]),
+            ([3, 0, 0, 0, 0], ["127.0.0.1", "http", hs("h"), hs("h"), "80", "-", hs("/")], [hs("a, b"), None, None, None, None]),
+            ([0, 0, 1, 1, 0], [None, "http", hs("[::1]:5000"), hs("::1"), "5000", "-", hs("/é")], [None, None, hs("[2001:db8::1]"), hs("8443"), None]),
+            ([0, 0, 0, 1, 0], [None, "http", hs("[::1]"), hs("::1"), "80", "-", hs("/x")], [None, None, None, hs("8443"), None]),
+            ([0, 0, 0, 1, 0], [None, "http", None, hs("h"), "80", "-", hs("/x")], [None, None, None, hs("8443"), None]),
+            ([0, 0, 1, 0, 1], [None, "http", hs("h"), hs("h"), "80", hs("/s"), hs("/x")], [None, None, hs("a.example:81, b.example:82"), None, hs("/one, /two")]),
+            ([1, 1, 1, 1, 1], [None, "http", hs("h"), hs("h"), "80", hs("/s"), hs("/x")], [hs('""'), hs(","), hs('"q,x", y'), hs(""), hs('"/a b"')]),
+        ]
+    ]
+
+    def cases(self, rng, tier):
+        while True:
+            cfg = [rng.choice([0, 0, 1, 1, 2, 3]) for _ in range(5)]
+            host = rng.choice(PF_HOSTS)
+            env = [
+                rng.choice([None, "127.0.0.1"]),
+                rng.choice(["http", "https"]),
+                None if rng.random() < 0.1 else hs(host),
+                hs(host.split(":")[0] or "srv"),
+                rng.choice(["80", "443", "8000"]),
+                hs(rng.choice(["", "/old", "/é"])),
+                hs("/" + rand_clean(rng, CLEAN, 0, 4)),
+            ]
+            hdr = []
+            for nm in PF_NAMES:
+                r = rng.random()
+                if r < 0.25:
+                    hdr.append(None)
+                elif r < 0.3:
+                    hdr.append(hs(rng.choice(["", ",", " ", '""', ", ,"])))
+                else:
+                    vals = [rng.choice(PF_VALUES[nm]) for _ in range(rng.randrange(1, 4))]
+                    hdr.append(hs(rng.choice([", ", ","]).join(vals)))
+            yield {"cfg": cfg, "env": env, "hdr": hdr}
+
+    @staticmethod
+    def tun(h):
+        """environ strings are latin-1 tunnelled UTF-8 (PEP 3333)"""
+        return unhs(h).encode("utf-8").decode("latin1")
+
+    @classmethod
+    def environ(cls, case):
+        ra, sch, hh, sn, sp, scr, pi = case["env"]
+        e = {"REQUEST_METHOD": "GET", "wsgi.url_scheme": sch, "SERVER_NAME": cls.tun(sn), "SERVER_PORT": sp, "SCRIPT_NAME": cls.tun(scr), "PATH_INFO": cls.tun(pi), "QUERY_STRING": ""}
+        if ra is not None:
+            e["REMOTE_ADDR"] = ra
+        if hh is not None:
+            e["HTTP_HOST"] = cls.tun(hh)
+        for nm, v in zip(PF_NAMES, case["hdr"]):
+            if v is not None:
+                e["HTTP_X_FORWARDED_" + nm.upper()] = cls.tun(v)
+        return e
+
+    def run(self, case):
+        from werkzeug.middleware.proxy_fix import ProxyFix
+
+        seen = {}
+
+        def app(environ, start_response):
+            seen.update(environ)
+            return []
+
+        cfg = dict(zip(("x_for", "x_proto", "x_host", "x_port", "x_prefix"), case["cfg"]))
+        ProxyFix(app, **cfg)(self.environ(case), lambda *a, **k: None)
+        return seen
+
+    def real(self, case):
+        e = self.run(case)
+        return ",".join([opt(hs, e.get("REMOTE_ADDR")), hs(e["wsgi.url_scheme"]), opt(hs, e.get("HTTP_HOST")), hs(e["SERVER_NAME"]), hs(e["SERVER_PORT"]), hs(e["SCRIPT_NAME"]), hs(e["PATH_INFO"])])
+
+    def model_line(self, case):
+        from werkzeug.http import parse_list_header
+
+        ra, sch, hh, sn, sp, scr, pi = case["env"]
+        lists = []
+        for v in case["hdr"]:
+            if v is None or unhs(v) == "":
+                lists.append("~")  # `if not (trusted and value)`
+            else:
+                lists.append(out_list(hs(x) for x in parse_list_header(self.tun(v))))
+        t = lambda h: hs(self.tun(h))  # noqa: E731
+        return line("proxyfix", *case["cfg"], opt(hs, ra), hs(sch), opt(t, hh), t(sn), hs(sp), t(scr), t(pi), *lists)
+
+    def oracle(self, case, real_out):
+        """property text: middleware in front of the app leaves PATH_INFO alone, so Request.path is recovered"""
+        if real_out.startswith("EXC"):
+            return f"ProxyFix raised {real_out}"
+        from werkzeug.wrappers import Request
+
+        want = self.tun(case["env"][6])
+        got = unhs(real_out.split(",")[6])
+        if got != want:
+            return f"ProxyFix changed PATH_INFO {want!r} -> {got!r}"
+        e = self.run(case)
+        if Request(e).path != Request(self.environ(case)).path:
+            return f"Request.path behind ProxyFix {Request(e).path!r} != {Request(self.environ(case)).path!r}"
+        return None
+
+    def nontrivial(self, case, real_out):
+        return any(case["cfg"])
+
+    def bucket(self, case, real_out):
+        if real_out.startswith("EXC"):
+            return "exc"
+        # which environ keys the middleware rewrote in this case
+        ra, sch, hh, sn, sp, scr, _pi = case["env"]
+        before = [opt(str, ra) if ra is None else hs(ra), hs(sch), opt(lambda h: hs(self.tun(h)), hh), hs(self.tun(sn)), hs(sp), hs(self.tun(scr))]
+        names = ["addr", "scheme", "host", "name", "port", "script"]
+        ch = [n for n, b, a in zip(names, before, real_out.split(",")[:6]) if a != b]
+        return "rewrote:" + ("+".join(ch) or "nothing")
+
+    def mutate(self, case, rng):
+        for i in range(5):
+            if case["cfg"][i]:
+                cfg = list(case["cfg"])
+                cfg[i] = 0
+                yield dict(case, cfg=cfg)
+            if case["hdr"][i] is not None:
+                hdr = list(case["hdr"])
+                hdr[i] = None
+                yield dict(case, hdr=hdr)
+
+
+class GetHostKernel(Stream):
+    name = "gethost-kernel"
+    corpus = [{"scheme": s, "host": hs(h)} for s in ["http", "https", "ws", "wss", "ftp"] for h in ["h", "h:80", "h:443", "10.0.0.80:80", "h80", "[::1]:80", "[::80]", ":80", "", "h:080", "h:4430", "é:80"]]
+
+    def cases(self, rng, tier):
+        n, limit = 0, (600 if tier == "quick" else 20000)
+        while n < limit:
+            n += 1
+            h = rng.choice(["h", "example.com", "10.0.0.80", "[::1]", "[::80]", "é.example", "x443", "web08", ""]) + rng.choice(["", "", ":80", ":443", ":8080", ":080", ":4430", ":180", ":80:80", ":"])
+            yield {"scheme": rng.choice(["http", "https", "ws", "wss", "ftp", "HTTP", ""]), "host": hs(h)}
+
+    def real(self, case):
+        from werkzeug.sansio.utils import get_host
+
+        return hs(get_host(case["scheme"], unhs(case["host"])))
+
+    def model_line(self, case):
+        return line("gethost", hs(case["scheme"]), case["host"])
+
+    def oracle(self, case, real_out):
+        """the host is recovered: only the scheme's default port may be missing from what was given"""
+        if real_out.startswith("EXC"):
+            return f"get_host raised {real_out}"
+        host, got = unhs(case["host"]), unhs(real_out)
+        default = {"http": ":80", "ws": ":80", "https": ":443", "wss": ":443"}.get(case["scheme"])
+        if got != host and not (default and host == got + default):
+            return f"get_host({case['scheme']!r}, {host!r}) = {got!r}"
+        return None
+
+    def bucket(self, case, real_out):
+        return "cut" if real_out != case["host"] else "same"
+
+
 CHECK = Check(
     prop="C15",
-    gen=["UrlTables"],
-    modules=["WzVerif.Props.C15"],
-    streams=[QuoteKernel(), UrlsplitKernel(), IriUri(), EnvironRoundtrip(), EnvironKernel(), Dispatcher()],
+    gen=["UrlTables", "UrlGlue", "Urlencode", "PyFns_Url"],
+    modules=["WzVerif.Props.C15", "WzVerif.Props.C15T"],
+    streams=[QuoteKernel(), UrlsplitKernel(), IriUri(), EnvironRoundtrip(), EnvironKernel(), BuilderForms(), Dispatcher(), ProxyFixStream(), GetHostKernel()],
     assumptions=[
+        "round 3: DispatcherMiddleware.__call__ (its while ... else loop with explicit fuel, rsplit, the mounts dict as its item list, apps abstract) is regenerated from the source (Gen/PyFns_Url.lean dispatcher_call) and proved equal to the hand model Url.dispatch for every mount table, SCRIPT_NAME and PATH_INFO with fuel >= len(PATH_INFO) + 1 (Props/C15T)",
+        "get_current_url, _wsgi_decoding_dance, _wsgi_encoding_dance and the bodies of iri_to_uri / uri_to_iri (between urlsplit and urlunsplit) are regenerated from the source by tools/py2lean.py (Gen/PyFns_Url.lean) on every run and proved equal to the hand model for all inputs (Props/C15T); urllib's quote enters as the hand model Url.quote with the safe= literal of each call as an argument (pinned against Gen/UrlTables by safe_literals_pinned), urlsplit / IDNA / _make_unquote_part's functions stay parameters resp. model functions; the CPython primitives the translated code calls (str.rstrip/lstrip(chars), join, latin-1 / UTF-8 codecs) are modelled in Util/PyPrelude.lean and validated by the stream prelude-kernels that the checks C01, C04, C06, C09, C11, C14, C17, C19, C20 run",
         "urllib.parse.urlsplit / urlunsplit and the SplitResult attributes (username, password, hostname, port incl. validation, TAB/CR/LF and leading C0/space stripping, scheme lower-casing, bracket checks) are modelled (Model/UrlSplit.lean) and validated by stream urlsplit-kernel; still opaque, evaluated by the harness with the same library calls and passed to the driver per URL: ipaddress validation of a bracketed host, the NFKC test of _checknetloc for non-ASCII netlocs, and hostname.lower() + IDNA codec / _decode_idna. The URL-text theorems assume the stated laws of these (HostLaws / AsciiHostLaws, shown satisfiable) and are for URLs of the grammar: scheme and host present, components in the %XX grammar, no raw delimiter in the userinfo",
-        "EnvironBuilder(path, base_url, query_string=<str>) -> environ -> Request.path / root_path / host / url is modelled end to end (Model/UrlEnviron.lean: builderEnviron, requestView, get_host, get_current_url) and validated by stream environ-kernel; proved: the path round trip (environ_path_roundtrip), the F15c witness, and the request side of the URL round trip (environ_url_roundtrip_partial: Request.url splits back and its path / query components denote root_path + path / the query string, for every Unicode path); EnvironBuilder's own parsing of path and base_url in front of it is OPEN (lemmas urlsplit_path_only, builder_base_split named in Props/C15.lean) and covered by stream environ-kernel",
+        "EnvironBuilder.__init__ / get_environ / from_environ and the base_url / query_string / args / server_name / server_port properties are modelled for every form of the path / base_url / query_string arguments (Model/UrlBuilder.lean: builderInit, Builder.environ, fromEnviron; Model/UrlEnviron.lean: builderEnviron = the (path, base_url, str) form, requestView, get_host, get_current_url) and validated by streams environ-kernel, environ-roundtrip and builder-forms; proved from the builder's ARGUMENTS to Request.path / root_path / host / url (environ_url_roundtrip, with the exclusions '//' / '?' / '#' / '%' / TAB-CR-LF each shown necessary), Request.args for mappings and strings (builder_args_roundtrip, on top of C02's parse_qsl/_urlencode model, imported read-only), full_path, the url / base_url / root_url / host_url family as text, from_environ; int() in server_port is modelled for plain ASCII digit runs only (the streams feed nothing else)",
+        "ProxyFix is modelled on the lists parse_list_header yields for the X-Forwarded-* headers (parse_list_header itself is C06's; the harness calls the real one and passes the lists); DispatcherMiddleware and ProxyFix are modelled on the raw (latin-1 tunnelled) environ strings",
         "urllib.parse.quote / unquote and bytes.decode with werkzeug's codec error handler are hand-modelled from CPython 3.12 (maximal-subpart error spans) and validated by stream quote-kernel, not verified",
         "the one-step fixpoint / round-trip claims (theorems and oracle) are for text whose every '%' starts a two-hex-digit escape (the property's '%XX' grammar); a bare '%' is only compared against the model, and the negation is proved on the witness '%%34%31'",
-        "environ-roundtrip is stated for paths starting with one '/', without '%', '?', '#' (URL syntax for EnvironBuilder's path argument: these are interpreted, not transported); tab/CR/LF in the path are removed by urlsplit inside EnvironBuilder (known finding F15c); queries are arbitrary str mappings without lone surrogates; it is an oracle-only stream (EnvironBuilder, Request are not modelled beyond the dances and the safe sets)",
+        "environ-roundtrip is stated for paths starting with one '/', without '%', '?', '#' (URL syntax for EnvironBuilder's path argument: these are interpreted, not transported); tab/CR/LF in the path are removed by urlsplit inside EnvironBuilder (known finding F15c - a violation is mapped to F15c only when Request.path is the argument with exactly TAB/CR/LF removed, every other clause holds for the stripped path, and the Lean model predicts exactly the observed outcome); queries are arbitrary str mappings without lone surrogates",
         "DispatcherMiddleware is modelled on the raw environ strings (it compares mount keys with PATH_INFO as is)",
     ],
     trusted_extra=["CPython urllib.parse / codecs (utf-8, latin-1, idna) semantics for the modelled or opaque primitives (validated by the streams where modelled, not verified)"],
@@ -830,8 +1328,8 @@ CHECK = Check(
 )
 
 MANIFEST = {
-    "level_text": "Machine-checked Lean 4 theorems about an executable model of urllib quote/unquote with werkzeug's error handler, iri_to_uri / uri_to_iri on split components, the latin-1 dances and DispatcherMiddleware's mount loop: quote output is ASCII for every input and idempotent for every safe set iri_to_uri uses (decide on the literals collected from the AST on every run), hence iri_to_uri is ASCII and idempotent component-wise; the dance round trip is lossless for every string; uri_to_iri is a fixpoint after one step on every component whose '%' all start '%XX' escapes (UTF-8 decoder with CPython's error spans modelled; keep tables evaluated from the live patterns); the dispatcher preserves SCRIPT_NAME+PATH_INFO and picks the longest '/'-boundary mount. IRI->URI->IRI is stable after one round for every component of that grammar (the model's UTF-8 decoder and Lean's encoder are proved mutually inverse); unquote inverts quote on text without '%', hence the path given to EnvironBuilder reaches Request.path unchanged through the dances. urlsplit / urlunsplit are modelled too, and the component theorems are lifted to whole URL text for URLs of the grammar (iri_to_uri ASCII + idempotent; uri_to_iri one-step fixpoint; IRI->URI->IRI stable) under stated laws of the opaque IDNA / ipaddress / NFKC steps. Tied to the code by differential streams (incl. urlsplit-kernel and the end-to-end environ-kernel); Request.url is proved to split back and to denote root_path + path + query on the request side (get_current_url, get_host, the dances); EnvironBuilder's own parsing in front of it is stream-validated.",
-    "level_note": "Trusted: Lean kernel; extract.py; the correspondence harness; CPython urllib/codecs for modelled primitives. urlsplit/urlunsplit and IDNA are opaque. All DESIGN theorems (P0, P1) proved. Known finding F15c (EnvironBuilder drops TAB/CR/LF from the path); F15a / F15b / F15d (Request.url read a literal %XX of the unquoted path as an escape, 899f28c) / F15e (wsgi.get_current_url skipped the decoding dance, 16e16ac) were repaired in /repo (c7898ed, 319c4e1) and are regression cases of stream iri-uri.",
+    "level_text": "Machine-checked Lean 4 theorems about an executable model of urllib quote/unquote with werkzeug's error handler, iri_to_uri / uri_to_iri on split components, the latin-1 dances and DispatcherMiddleware's mount loop: quote output is ASCII for every input and idempotent for every safe set iri_to_uri uses (decide on the literals collected from the AST on every run), hence iri_to_uri is ASCII and idempotent component-wise; the dance round trip is lossless for every string; uri_to_iri is a fixpoint after one step on every component whose '%' all start '%XX' escapes (UTF-8 decoder with CPython's error spans modelled; keep tables evaluated from the live patterns); the dispatcher preserves SCRIPT_NAME+PATH_INFO and picks the longest '/'-boundary mount. IRI->URI->IRI is stable after one round for every component of that grammar (the model's UTF-8 decoder and Lean's encoder are proved mutually inverse); unquote inverts quote on text without '%', hence the path given to EnvironBuilder reaches Request.path unchanged through the dances. urlsplit / urlunsplit are modelled too, and the component theorems are lifted to whole URL text for URLs of the grammar (iri_to_uri ASCII + idempotent; uri_to_iri one-step fixpoint; IRI->URI->IRI stable) under stated laws of the opaque IDNA / ipaddress / NFKC steps. Tied to the code by differential streams (incl. urlsplit-kernel and the end-to-end environ-kernel); the environ round trip is proved from EnvironBuilder's arguments (urlsplit(path), both iri_to_uri calls, the base_url setter, _path_encode, the dances, Request.__init__, get_host, get_current_url) to Request.path / root_path / host / url, with every exclusion shown necessary; Request.args recovers every Unicode mapping (composition with C02's parse_qsl / _urlencode theorem); full_path, the url / base_url / root_url / host_url family as text, from_environ, get_host on every host[:port], the dispatcher's default case and ProxyFix (PATH_INFO untouched, n-th value from the right, port and prefix rewriting) have theorems; constants and shapes of the glue (default ports, keep sets, environ dict entries, call sites, ProxyFix writes) are regenerated from the source and tied by decide obligations.",
+    "level_note": "Trusted: Lean kernel; extract.py; the correspondence harness; CPython urllib/codecs for modelled primitives. urlsplit/urlunsplit are modelled; IDNA, ipaddress and the NFKC test are opaque with stated laws; parse_list_header (ProxyFix) is C06's. All DESIGN theorems (P0, P1) proved, nothing OPEN. Known finding F15c (EnvironBuilder drops TAB/CR/LF from the path); F15a / F15b / F15d (Request.url read a literal %XX of the unquoted path as an escape, 899f28c) / F15e (wsgi.get_current_url skipped the decoding dance, 16e16ac) were repaired in /repo (c7898ed, 319c4e1) and are regression cases of stream iri-uri.",
     "technique": "Lean 4 proof (induction over byte lists, decide over AST-collected literals and regenerated keep tables, loop invariant for the dispatcher) + model/code correspondence + property oracles",
     "design_ref": "DESIGN.md section 4, C15",
 }
